@@ -47,16 +47,16 @@ static Val gen(Rng &r, const std::string &kind) {
   else if (kind == "d") v.d = rdbl(r);
   else if (kind == "b") v.b = r.coin();
   else if (kind == "s") v.s = rstr(r);
-  else if (kind == "vi") { int n = (int)r.below(5); for (int k = 0; k < n; k++) v.vi.push_back(r.range(-50, 50)); }
+  else if (kind == "vi") { int n = r.coin(1, 4) ? 10 + (int)r.below(30) : (int)r.below(5); for (int k = 0; k < n; k++) v.vi.push_back(r.range(-50, 50)); }
   else if (kind == "vd") { int n = (int)r.below(5); for (int k = 0; k < n; k++) v.vd.push_back(rdbl(r)); }
-  else if (kind == "vs") { int n = (int)r.below(4); for (int k = 0; k < n; k++) v.vs.push_back(rstr(r)); }
+  else if (kind == "vs") { int n = r.coin(1, 4) ? 10 + (int)r.below(15) : (int)r.below(4); for (int k = 0; k < n; k++) v.vs.push_back(rstr(r)); }
   else if (kind == "m") {
     static const int shapes[][2] = {{0, 0}, {3, 0}, {0, 3}, {1, 1}, {1, 5}, {5, 1}, {2, 3}, {3, 2}, {4, 4}, {40, 30}};
     const int *s = shapes[r.below(10)];
     v.m = Eigen::MatrixXd(s[0], s[1]);
     for (Index i = 0; i < v.m.rows(); i++) for (Index j = 0; j < v.m.cols(); j++) v.m(i, j) = rdbl(r);
   } else if (kind == "v3") v.v3 = Eigen::Vector3d(rdbl(r), rdbl(r), rdbl(r));
-  else if (kind == "lv3") { int n = (int)r.below(4); for (int k = 0; k < n; k++) v.lv3.push_back(Eigen::Vector3d(rdbl(r), rdbl(r), rdbl(r))); }
+  else if (kind == "lv3") { /* long lists too: element names ind10, ind11, ... sort before ind2 */ int n = r.coin(1, 3) ? 9 + (int)r.below(20) : (int)r.below(4); for (int k = 0; k < n; k++) v.lv3.push_back(Eigen::Vector3d(rdbl(r), rdbl(r), rdbl(r))); }
   return v;
 }
 
